@@ -55,9 +55,9 @@ def aero_of(sc, name):
     return ap.get_aerodynamic_state(v_wind=sc._get_wind(ap.p_bar))
 
 
-def run_one(fn, mode):
+def run_one(fn, mode, two=False):
     w = AN.new_world()
-    lab = RM.Lab(make_spec(True), symbolic=True)
+    lab = RM.Lab(make_spec(True, two=two), symbolic=True)
     sc = lab.fresh()
     pre_state = w.scene_state(sc)
     pre_snap = AN.snapshot(sc)
@@ -106,15 +106,15 @@ REAL_CALLS = {
 
 
 def _real_state(sc):
-    ap = sc._airplanes[NAME]
-    return {"v": np.array(ap.v, dtype=float), "w": np.array(ap.w, dtype=float), "q": np.array(ap.q, dtype=float), "p": np.array(ap.p_bar, dtype=float),
-            "controls": {k: float(v) for k, v in ap.current_control_state.items()},
-            "flaps": np.concatenate([np.array(s._delta_flap, dtype=float) for s in ap.segments])}
+    aps = list(sc._airplanes.values())
+    return {"v": np.concatenate([np.array(ap.v, dtype=float) for ap in aps]), "w": np.concatenate([np.array(ap.w, dtype=float) for ap in aps]),
+            "q": np.concatenate([np.array(ap.q, dtype=float) for ap in aps]), "p": np.concatenate([np.array(ap.p_bar, dtype=float) for ap in aps]),
+            "controls": {"%s.%s" % (ap.name, k): float(v) for ap in aps for k, v in ap.current_control_state.items()},
+            "flaps": np.concatenate([np.array(s._delta_flap, dtype=float) for ap in aps for s in ap.segments])}
 
 
 def _fm_vec(fm):
-    t = fm[NAME]["total"]
-    return np.array([t[k] for k in sorted(t)], dtype=float)
+    return np.array([fm[ac]["total"][k] for ac in sorted(fm) for k in sorted(fm[ac]["total"])], dtype=float)
 
 
 def replay_same(inp):
@@ -129,7 +129,7 @@ def replay_same(inp):
     with AN.real_classes():
         for vals in cands:
             vals = _sanitise(vals)
-            lab = RM.Lab(make_spec(False, vals), symbolic=False)
+            lab = RM.Lab(make_spec(False, vals, two=inp.get("two", False)), symbolic=False)
             sc = lab.fresh()
             try:
                 fm0 = _fm_vec(sc.solve_forces())
@@ -171,7 +171,7 @@ def _check_set_state(sc, mode, ret, s0, s1, a0, a1, vals):
         if abs(a1[1] - a0[1]) > 1e-7 or abs(a1[2] - a0[2]) > 1e-7 * a0[2]:
             bad.append("beta/airspeed changed (%s -> %s)" % (a0[1:], a1[1:]))
         for k, v in s0["controls"].items():
-            want = r["elevator"] if k == "elevator" else v
+            want = r["elevator"] if k.endswith(".elevator") else v
             if abs(s1["controls"][k] - want) > 1e-9:
                 bad.append("control %s is %.6f, expected %.6f" % (k, s1["controls"][k], want))
         for k in ("w", "q", "p"):
@@ -185,7 +185,7 @@ def _check_set_state(sc, mode, ret, s0, s1, a0, a1, vals):
             if not np.allclose(s1[k], s2[k], rtol=1e-8, atol=1e-8):
                 bad.append("%s of the aircraft differs from the returned state by %.3g" % (k, float(np.max(np.abs(s1[k] - s2[k])))))
         for k, v in s0["controls"].items():
-            want = cs.get("elevator") if k == "elevator" else v
+            want = cs.get("elevator") if k.endswith(".elevator") else v
             if abs(s1["controls"][k] - want) > 1e-9:
                 bad.append("control %s is %.6f, expected %.6f" % (k, s1["controls"][k], want))
         fm_a = _fm_vec(sc.solve_forces())
@@ -203,8 +203,10 @@ def _check_set_state(sc, mode, ret, s0, s1, a0, a1, vals):
 REPLAYS = {"same": replay_same}
 
 
-def harness(ck, label, fn, mode):
-    res = explore(lambda: run_one(fn, mode), assumptions=[z3.Real("CLt") > -2, z3.Real("CLt") < 2] + extra_assumptions(), max_paths=24, setup=setup_ctx)
+def harness(ck, label, fn, mode, two=False):
+    if two:
+        label = label + " [two aircraft]"
+    res = explore(lambda: run_one(fn, mode, two), assumptions=[z3.Real("CLt") > -2, z3.Real("CLt") < 2] + extra_assumptions(), max_paths=24, setup=setup_ctx)
     ck.add_paths(res)
     for p in res:
         lab = "%s path%s" % (label, "".join("1" if d else "0" for d in p.decisions))
@@ -219,8 +221,8 @@ def harness(ck, label, fn, mode):
             continue   # MaxIterationError: nothing is claimed about the state after a failed trim
         base_facts = list(p.ctx.assumptions) + list(p.ctx.pc)
 
-        def mk(ob, label=label, mode=mode):
-            return Finding("same", {"label": label, "mode": mode, "vals": model_vals(ob.model)}, ob.label, ob.model)
+        def mk(ob, label=label, mode=mode, two=two):
+            return Finding("same", {"label": label.replace(" [two aircraft]", ""), "mode": mode, "two": two, "vals": model_vals(ob.model)}, ob.label, ob.model)
 
         def facts_for(exprs):
             return base_facts + cone_defs(p.ctx, exprs)
@@ -245,9 +247,12 @@ def harness(ck, label, fn, mode):
             g = z3.And(*v["solved_terms"]) if v["solved_ok"] else z3.BoolVal(False)
             obs.append(Obligation(lab + " _solved flag refers to the current state", facts_for(list(v["solved_terms"])), g, meta={"finding": mk}))
         ck.add(obs)
-        ck.add([Obligation(lab + " reach", p.facts(), z3.BoolVal(True), witness=True)])
+        ck.add([Obligation(lab + " reach", base_facts, z3.BoolVal(True), witness=True)])
         if v["pre"]:
-            ck.add([Obligation(lab + " canary", base_facts, v["pre"][0] == v["post"][0] + 1, canary=True)])
+            same = [i for i, (a, b) in enumerate(zip(v["pre"], v["post"])) if a.get_id() == b.get_id() and not z3.is_rational_value(a)]
+            k = same[0] if same else 0
+            cg = v["pre"][k] == v["post"][k] + 1
+            ck.add([Obligation(lab + " canary", AN.sliced_facts(p.ctx, cg), cg, canary=True)])
         if len(ck.samples) < 5:
             ck.sample({"analysis": label, "path": p.decisions, "LLsolve_calls": len(v["world"].calls), "state_components": len(v["pre"]),
                        "components_syntactically_changed": sum(1 for a, b in zip(v["pre"], v["post"]) if a.get_id() != b.get_id())})
@@ -312,6 +317,9 @@ def main(tier, seed, only=None):
         if only and not any(o in label for o in only):
             continue
         tasks.append((label, lambda c, label=label, fn=fn, mode=mode: harness(c, label, fn, mode)))
+        if mode == "same" and label in ("stability_derivatives", "damping_derivatives", "control_derivatives", "aero_center", "distributions", "state_derivatives"):
+            # scenes with a second aircraft: analyses over all aircraft must restore every one of them
+            tasks.append((label + " two", lambda c, label=label, fn=fn, mode=mode: harness(c, label, fn, mode, two=True)))
     from symx.harness import run_parallel
     run_parallel(ck, tasks)
     ck.bound(aircraft="family member g5, N=8, concrete geometry", state="all symbolic (velocity, unit quaternion, position, rates, wind, controls, target CL)",
